@@ -811,6 +811,504 @@ def run_draws(ctx, D, cases=None):
 
 
 # ------------------------------------------------------------------------------------------------
+# histories, 1: the methods are functions of their arguments — they leave the caller's arrays bit-for-bit unchanged
+# and give the same values whatever was called before on the same array / distribution objects
+# ------------------------------------------------------------------------------------------------
+CONTAINERS = ('float64', 'int64', 'readonly', 'strided')
+# Suspected defect of the unchanged tree, found while building this stream and counted under 'suspected-defect' instead of
+# failing the run (see the final report of the C06 strengthening): with an integer-dtype mu, `deviance(..., scaled=True)`
+# raises UFuncTypeError (normal with integer y, binomial, poisson: `dev /= self.scale` on an integer array) and
+# `utils.ylogydu` truncates `y log(y/u)` to integers (`np.zeros_like(u)`), e.g.
+# PoissonDist().deviance(np.array([3.]), np.array([2]), scaled=False) == 0 instead of 0.4328.  V / phi / log_pdf / sample
+# with an integer-dtype mu are checked in full.  Set to False once the library is repaired.
+INT_MU_DEVIANCE_SUSPECT = True
+PURE_OPS = [('V', False), ('V', True),
+            ('dev', False, False), ('dev', False, True), ('dev', True, False), ('dev', True, True),
+            ('log_pdf', False), ('log_pdf', True), ('phi',), ('sample',)]
+
+
+def op_name(op):
+    if op[0] == 'V':
+        return 'V(mu, weights=w)' if op[1] else 'V(mu)'
+    if op[0] == 'dev':
+        return 'deviance(y, mu, scaled=%s%s)' % (op[1], ', weights=w' if op[2] else '')
+    if op[0] == 'log_pdf':
+        return 'log_pdf(y, mu, weights=w)' if op[1] else 'log_pdf(y, mu)'
+    return 'phi(y, mu, edof, w)' if op[0] == 'phi' else 'sample(mu)'
+
+
+def make_container(kind, vals, role):
+    """a fresh array holding `vals` (role 'w' is always a float array: integer mu / y with float weights is valid input)"""
+    if kind == 'int64' and role != 'w':
+        return np.array([int(v) for v in vals], dtype=np.int64)
+    if kind == 'strided':
+        base = np.zeros(2 * len(vals))
+        base[::2] = vals
+        return base[::2]
+    a = np.array(vals, dtype=float)
+    if kind == 'readonly':
+        a.flags.writeable = False
+    return a
+
+
+def fresh_args(c):
+    return {r: make_container(c['container'], c[r], r) for r in ('y', 'mu', 'w')}
+
+
+def snapshot(A):
+    return {r: (A[r].dtype.str, A[r].shape, A[r].tobytes()) for r in A}
+
+
+def call_op(dist, op, A, edof, seed):
+    if op[0] == 'V':
+        return dist.V(A['mu'], weights=A['w']) if op[1] else dist.V(A['mu'])
+    if op[0] == 'dev':
+        kw = dict(weights=A['w']) if op[2] else {}
+        return dist.deviance(A['y'], A['mu'], scaled=op[1], **kw)
+    if op[0] == 'log_pdf':
+        return dist.log_pdf(A['y'], A['mu'], weights=A['w']) if op[1] else dist.log_pdf(A['y'], A['mu'])
+    if op[0] == 'phi':
+        return dist.phi(A['y'], A['mu'], edof, A['w'])
+    np.random.seed(seed)
+    return dist.sample(A['mu'])
+
+
+def canon_result(res, op, n):
+    """float array of the expected shape, or a string describing what is wrong with the return value"""
+    try:
+        a = np.asarray(res, dtype=float)
+    except Exception as e:
+        return 'return value %r is not numeric (%s)' % (type(res).__name__, type(e).__name__)
+    want = () if op[0] == 'phi' else (n,)
+    if a.shape != want:
+        return 'return value has shape %r, expected %r' % (a.shape, want)
+    return a.copy()
+
+
+def gen_int_point(rng, fam, levels):
+    """integer-valued (y, mu) inside the support x mean domain (None when there is none: binomial with one trial)"""
+    if fam == 'normal':
+        return float(rng.randint(-50, 50)), float(rng.randint(-50, 50))
+    if fam == 'binomial':
+        if levels < 2:
+            return None
+        return float(rng.randint(0, levels)), float(rng.randint(1, levels - 1))
+    if fam == 'poisson':
+        return float(rng.choice([0, 0, 1, 2, 3, rng.randint(0, 60)])), float(rng.randint(1, 50))
+    return float(rng.randint(1, 50)), float(rng.randint(1, 50))
+
+
+def gen_purity_cases(ctx, D):
+    lits = harvest_literals(D)
+    reps = 6 if ctx.tier == 'quick' else 30
+    out = []
+    for fam in FAMS:
+        rng = ctx.subrng('purity', fam)
+        scales = [0.3, 1.0, 2.5, loguni(rng, 1e-3, 1e3)] if fam in FREE_SCALE else [1.0]
+        for levels in ([1, 2, 5] if fam == 'binomial' else [1]):
+            for scale in scales:
+                for container in CONTAINERS:
+                    for _ in range(reps * (1 if fam in FREE_SCALE else 3)):
+                        n = rng.choice([1, 2, 3, 4, 6])
+                        if container == 'int64':
+                            pts = [gen_int_point(rng, fam, levels) for _ in range(n)]
+                            if pts[0] is None:
+                                continue
+                        else:
+                            pts = [gen_point(rng, fam, levels, lits) for _ in range(n)]
+                            if fam == 'poisson':
+                                pts = [(y, min(mu, 1e6)) for (y, mu) in pts]
+                        w = [float(gen_weight(rng, lits) or rng.choice([1.0, 0.5, 2.0, 1.7])) for _ in range(n)]
+                        ops = list(range(len(PURE_OPS)))
+                        rng.shuffle(ops)
+                        second = list(range(len(PURE_OPS)))
+                        rng.shuffle(second)
+                        out.append(dict(kind='purity', fam=fam, levels=levels, scale=float(scale), container=container,
+                                        y=[float(p[0]) for p in pts], mu=[float(p[1]) for p in pts], w=w,
+                                        edof=float(n * rng.uniform(0.0, 0.9)), ops=ops + second,
+                                        numpy_seed=rng.randrange(2 ** 32)))
+    return out
+
+
+def purity_probe(D, c, upto):
+    """run the first `upto + 1` calls of the case on fresh shared arrays and one distribution object.
+    returns (index, what, detail) of the first call that raises, modifies an argument or returns something that
+    differs from the same call on untouched copies with a new distribution object; None when there is none."""
+    fam, levels, scale = c['fam'], c['levels'], c['scale']
+    n = len(c['mu'])
+    dist = make_dist(D, fam, scale, levels)
+    A = fresh_args(c)
+    pristine = snapshot(A)
+    results = []
+    suspected = []
+    for k, oi in enumerate(c['ops'][:upto + 1]):
+        op = tuple(PURE_OPS[oi])
+        try:
+            with np.errstate(all='ignore'):
+                ref = canon_result(call_op(make_dist(D, fam, scale, levels), op, fresh_args(c), c['edof'], c['numpy_seed']), op, n)
+        except Exception as e:
+            ref = '%s: %s' % (type(e).__name__, e)
+        raised = None
+        try:
+            with np.errstate(all='ignore'):
+                res = call_op(dist, op, A, c['edof'], c['numpy_seed'])
+                got = canon_result(res, op, n)
+        except Exception as e:
+            raised = '%s: %s' % (type(e).__name__, e)
+            # SUSPECTED DEFECT of the unchanged tree (reported, not part of this stream's verdict): deviance with an
+            # integer-dtype mu raises for scaled=True (`dev /= self.scale` on an integer array) — the same call raises
+            # the same way on fresh copies, so it is not an effect of the history
+            if not (INT_MU_DEVIANCE_SUSPECT and c['container'] == 'int64' and op[0] == 'dev' and isinstance(ref, str)
+                    and ref.split(':')[0] == type(e).__name__):
+                return k, 'exception', dict(call=op_name(op), raised=raised,
+                                            calls_before=[op_name(PURE_OPS[j]) for j in c['ops'][:k]])
+        now = snapshot(A)
+        changed = [r for r in ('y', 'mu', 'w') if now[r] != pristine[r]]
+        if changed:
+            r = changed[0]
+            d = dict(call=op_name(op), argument=r, before=c[r], after=np.asarray(A[r], dtype=float).tolist(),
+                     calls_before=[op_name(PURE_OPS[j]) for j in c['ops'][:k]])
+            try:        # what the caller sees next, against the textbook variance function of the values it passed
+                with np.errstate(all='ignore'):
+                    d['V(mu) on the same array afterwards'] = np.asarray(dist.V(A['mu']), dtype=float).tolist()
+                    d['textbook V of the mu that was passed'] = V_ref(fam, levels, np.array(c['mu'])).tolist()
+            except Exception as e:
+                d['V(mu) on the same array afterwards'] = '%s: %s' % (type(e).__name__, e)
+            return k, 'argument modified', d
+        if raised is not None:
+            suspected.append((op_name(op), raised.split(':')[0]))
+            continue
+        if isinstance(got, str) or isinstance(ref, str):
+            if isinstance(got, str):
+                return k, 'bad return value', dict(call=op_name(op), observed=got)
+            return k, 'exception', dict(call=op_name(op) + ' on fresh copies', raised=ref)
+        with np.errstate(all='ignore'):
+            tol = 1e-12 * (np.abs(got) + np.abs(ref)) + 1e-300
+            same = (got == ref) | (np.isnan(got) & np.isnan(ref)) | (np.abs(got - ref) <= tol)
+        if not np.all(same):
+            return k, 'depends on earlier calls', dict(call=op_name(op), on_the_same_objects=got.tolist(), on_fresh_copies=ref.tolist(),
+                                                       calls_before=[op_name(PURE_OPS[j]) for j in c['ops'][:k]])
+        results.append((op, got, bool(np.array_equal(got, ref, equal_nan=True))))
+    return None, results, suspected
+
+
+def run_purity(ctx, D, cases=None):
+    st = 'dist.purity'
+    ctx.stream(st, 'V / deviance / log_pdf / phi / sample called in random order (each twice) on the SAME y, mu, weights arrays '
+                   '(float64, int64 mu and y, read-only, strided) and one distribution object: arguments bit-for-bit unchanged, '
+                   'every value equal to the same call on fresh copies with a new object (1e-12), V and deviance vs model (1e-11)')
+    if cases is None:
+        cases = gen_purity_cases(ctx, D)
+    lines = []
+    for c in cases:
+        for y, mu, w in zip(c['y'], c['mu'], c['w']):
+            for ww in (1.0, w):
+                lines.append('C06 all %s %s %s %s %s %s' % (c['fam'], f2bits(c['levels']), f2bits(c['scale']), f2bits(ww), f2bits(y), f2bits(mu)))
+    outs = ctx.driver.run(lines)
+    fails = 0
+    k0 = 0
+    for c in cases:
+        fam, levels, scale, n = c['fam'], c['levels'], c['scale'], len(c['mu'])
+        mouts = outs[k0:k0 + 2 * n]
+        k0 += 2 * n
+        sig = dict(fam=fam, levels=levels, scale=repr(scale), container=c['container'], mu=repr(c['mu']), y=repr(c['y']), w=repr(c['w']), ops=repr(c['ops']))
+        ctx.case(st, sig, nontrivial=True, sample=dict(fam=fam, levels=levels, scale=scale, container=c['container'], mu=c['mu'][:2]))
+        ctx.count('purity container', c['container'])
+        r = purity_probe(D, c, len(c['ops']) - 1)
+        if r[0] is not None:
+            k, what, detail = r
+            r2 = purity_probe(D, c, k)           # once more, from scratch, up to that call
+            if r2[0] is not None and fails < MAX_FAILS:
+                fails += 1
+                ctx.fail(st, dict(fam=fam, check=what, call=op_name(PURE_OPS[c['ops'][k]]), container=c['container']), c,
+                         observed=dict(first=detail, second=r2[2], failing_call_index=k),
+                         expected='arguments unchanged bit-for-bit and the value of the same call on untouched copies of (y, mu, weights)',
+                         oracle='NumPy: bytes of the argument arrays before / after each public call; the same call on fresh copies with a new distribution object')
+            elif r2[0] is None:
+                ctx.count('purity', 'not reproduced')
+            continue
+        for call, exc in r[2]:
+            ctx.count('suspected-defect', 'deviance with integer-dtype mu raises %s: %s %s' % (exc, fam, call.replace(', weights=w', '')))
+        # ---- correspondence: what the object returned in the middle of the history vs the (pure) model
+        model = np.array([[bits2f(t) for t in o.split()] if o != 'bad-op' else [np.nan] * 5 for o in mouts], dtype=float).reshape(n, 2, 5)
+        y = np.array(c['y']); mu = np.array(c['mu']); w = np.array(c['w'])
+        s_eff = eff_scale(fam, scale)
+        mag = dev_magnitude(fam, levels, y, mu)
+        bad = None
+        for op, got, bit_equal in r[1]:
+            if not bit_equal:
+                ctx.count('purity', 'equal within 1e-12 but not bit-for-bit')
+            with np.errstate(all='ignore'):
+                if op[0] == 'V':
+                    mv = model[:, 1 if op[1] else 0, 0]
+                    e = rel_err(got, mv, 1e-11 * np.abs(mv) + 1e-300)
+                elif op[0] == 'dev':
+                    wn = w if op[2] else np.ones(n)
+                    mv = model[:, 1 if op[2] else 0, 2 if op[1] else 1]
+                    e = rel_err(got, mv, 1e-11 * (mag * wn / (s_eff if op[1] else 1.0)) + 1e-300)
+                else:
+                    continue
+            if not np.all(e <= 1.0):
+                if INT_MU_DEVIANCE_SUSPECT and c['container'] == 'int64' and op[0] == 'dev':
+                    ctx.count('suspected-defect', 'deviance with integer-dtype mu differs from the model (ylogydu truncates to the dtype of mu): %s' % fam)
+                elif bad is None:
+                    bad = (op_name(op), got.tolist(), mv.tolist())
+        if bad is not None:
+            ctx.disagree(st, c, impl=dict(call=bad[0], value=bad[1]), model=bad[2],
+                         detail='value returned in the middle of a call history differs from the model although it equals the value on fresh copies')
+
+
+# ------------------------------------------------------------------------------------------------
+# histories, 2: the scale estimate of a distribution object that has estimated (and stored) a scale before
+# ------------------------------------------------------------------------------------------------
+def gen_phi_block(rng, fam, levels, lits, n):
+    pts = [gen_point(rng, fam, levels, lits) for _ in range(n)]
+    if fam == 'normal':       # keep the Pearson sum well conditioned
+        pts = [(mu + rng.gauss(0, 1) * loguni(rng, 1e-3, 1e3), mu) for (_, mu) in pts]
+    elif fam in ('gamma', 'inv_gauss'):
+        pts = [(mu * loguni(rng, 0.2, 5), mu) for (_, mu) in pts]
+    return dict(n=n, edof=float(n * rng.uniform(0.0, 0.9)), w=[float(gen_weight(rng, lits) or 1.0) for _ in range(n)],
+                y=[float(p[0]) for p in pts], mu=[float(p[1]) for p in pts])
+
+
+def gen_phi_history_cases(ctx, D):
+    lits = harvest_literals(D)
+    reps = 8 if ctx.tier == 'quick' else 40
+    out = []
+    for fam in FAMS:
+        rng = ctx.subrng('phi-history', fam)
+        for levels in ([1, 2, 5] if fam == 'binomial' else [1]):
+            for init in ([None, None, 0.3, 1.0, 2.5, loguni(rng, 1e-3, 1e3)] if fam in FREE_SCALE else [1.0]):
+                for k in (2, 3, 5):
+                    for _ in range(reps):
+                        out.append(dict(kind='phi_history', fam=fam, levels=levels, init=init,
+                                        steps=[gen_phi_block(rng, fam, levels, lits, rng.choice([1, 2, 3, 5, 30])) for _ in range(k)]))
+    return out
+
+
+def phih_line(fam, levels, init, steps):
+    toks = ['C06 phih', fam, f2bits(levels), 'none' if init is None else f2bits(init), str(len(steps))]
+    for b in steps:
+        toks += [str(b['n']), f2bits(b['edof'])] + [f2bits(v) for v in b['w']] + [f2bits(v) for v in b['y']] + [f2bits(v) for v in b['mu']]
+    return ' '.join(toks)
+
+
+def parse_phih(o, k):
+    """[(phi returned, scale stored)] per step; None entries for Python None; NaN when the line is unusable"""
+    try:
+        steps = [t.split() for t in o.split(' | ')]
+        if len(steps) != k or any(len(t) != 2 for t in steps):
+            raise ValueError
+        return [tuple(None if x == 'none' else bits2f(x) for x in t) for t in steps]
+    except Exception:
+        return [(float('nan'), float('nan'))] * k
+
+
+def pearson_ref(fam, levels, b):
+    y, mu, w = np.array(b['y'], dtype=float), np.array(b['mu'], dtype=float), np.array(b['w'], dtype=float)
+    with np.errstate(all='ignore'):
+        return float(np.sum(w * (y - mu) ** 2 / V_ref(fam, levels, mu)) / (b['n'] - b['edof']))
+
+
+def phi_history_once(D, c):
+    """the object lives through the estimates the way it does inside a model: each estimate is stored in `scale`
+    unless the user supplied one.  returns (step index, got, want) of the first wrong estimate, else (None, values)."""
+    fam, levels, init = c['fam'], c['levels'], c['init']
+    supplied = init is not None or fam not in FREE_SCALE
+    dist = make_dist(D, fam, init, levels)
+    got_all = []
+    for j, b in enumerate(c['steps']):
+        want = eff_scale(fam, init) if supplied else pearson_ref(fam, levels, b)
+        try:
+            with np.errstate(all='ignore'):
+                got = float(dist.phi(_arr(b['y']), _arr(b['mu']), b['edof'], _arr(b['w'])))
+        except Exception as e:
+            return j, '%s: %s' % (type(e).__name__, e), want
+        if np.isfinite(want) and abs(want) < 1e290 and not (abs(got - want) <= 1e-10 * abs(want)):
+            return j, got, want
+        got_all.append(got)
+        if not supplied:
+            dist.scale = got          # GAM._estimate_model_statistics: distribution.scale = distribution.phi(...)
+    try:
+        stored = dist.scale
+        stored = None if stored is None else float(stored)
+    except Exception:
+        stored = float('nan')
+    return None, got_all, stored
+
+
+def run_phi_history(ctx, D, cases=None):
+    st = 'dist.phi.history'
+    ctx.stream(st, 'one distribution object through 2-5 scale estimates on different data, each stored in .scale as GAM does: '
+                   'every phi = Pearson / (n - edof) of the CURRENT data (or the supplied scale) and = model estimateHistory / phiAt, rel 1e-11')
+    if cases is None:
+        cases = gen_phi_history_cases(ctx, D)
+    outs = ctx.driver.run([phih_line(c['fam'], c['levels'], c['init'], c['steps']) for c in cases])
+    fails = 0
+    for c, o in zip(cases, outs):
+        fam, levels, init, k = c['fam'], c['levels'], c['init'], len(c['steps'])
+        supplied = init is not None or fam not in FREE_SCALE
+        b0 = c['steps'][0]
+        sig = dict(fam=fam, levels=levels, init=repr(init), k=k, n=[b['n'] for b in c['steps']], y0=repr(b0['y'][0]), mu0=repr(b0['mu'][0]), edof0=repr(b0['edof']))
+        ctx.case(st, sig, nontrivial=not supplied, sample=dict(fam=fam, levels=levels, init=init, k=k))
+        ctx.count('phi history', '%s %s' % (fam, 'supplied' if supplied else 'estimated'))
+        r = phi_history_once(D, c)
+        if r[0] is not None:
+            r2 = phi_history_once(D, c)
+            if r2[0] is not None and fails < MAX_FAILS:
+                fails += 1
+                j = r[0]
+                ctx.fail(st, dict(fam=fam, check='phi after earlier estimates', supplied=supplied, step=min(j, 1)), c,
+                         observed=dict(estimate_number=j + 1, phi=r[1], earlier_estimates_stored_in_scale=not supplied),
+                         expected=r[2], oracle='supplied scale, else sum(w (y - mu)^2 / V(mu)) / (n - edof) of the data of that call, textbook V (NumPy)')
+            continue
+        model = parse_phih(o, k)
+        ok = True
+        for j, got in enumerate(r[1]):
+            mv = model[j][0]
+            if mv is None or not (got == mv or abs(got - mv) <= 1e-11 * abs(mv)):
+                if not (np.isfinite(got) or mv is None or np.isfinite(mv)):
+                    continue
+                ok = False
+        ms = model[-1][1]
+        if ok and not ((r[2] is None and ms is None) or (r[2] is not None and ms is not None and (r[2] == ms or abs(r[2] - ms) <= 1e-11 * abs(ms) or not (np.isfinite(r[2]) or np.isfinite(ms))))):
+            ok = False
+        if not ok:
+            ctx.disagree(st, c, impl=dict(phi=r[1], scale_attribute=r[2]), model=[list(t) for t in model],
+                         detail='phi along the history differs from the model although the Pearson oracle holds at every step')
+
+
+# ------------------------------------------------------------------------------------------------
+# histories, 3: the same through the model: statistics_['scale'] of every fit of one GAM object
+# ------------------------------------------------------------------------------------------------
+FIT_LINK = dict(normal='identity', binomial='logit', poisson='log', gamma='log', inv_gauss='log')
+FIT_CLASS = dict(normal='LinearGAM', binomial='LogisticGAM', poisson='PoissonGAM', gamma='GammaGAM', inv_gauss='InvGaussGAM')
+
+
+def gen_fit_history_cases(ctx):
+    reps = 2 if ctx.tier == 'quick' else 10
+    out = []
+    for fam in FAMS:
+        rng = ctx.subrng('fit-history', fam)
+        hows = ['name', 'instance', 'class'] + (['supplied'] if fam in FREE_SCALE else [])
+        for how in hows:
+            for _ in range(reps):
+                levels = rng.choice([2, 5]) if (fam == 'binomial' and how == 'instance') else 1
+                fits = []
+                for _ in range(rng.choice([2, 2, 3])):
+                    fits.append(dict(n=rng.randint(40, 120), seed=rng.randrange(2 ** 31), weighted=rng.random() < 0.6,
+                                     disp=loguni(rng, 0.01, 0.4), sd=loguni(rng, 0.05, 3.0)))
+                out.append(dict(kind='fit_history', fam=fam, how=how, levels=levels,
+                                scale=(loguni(rng, 0.05, 5.0) if how == 'supplied' else None),
+                                n_splines=rng.choice([5, 8]), fits=fits))
+    return out
+
+
+def fit_data(c, f):
+    rs = np.random.RandomState(f['seed'])
+    n = f['n']
+    X = rs.uniform(0, 1, size=(n, 1))
+    g = 1.5 + np.sin(2 * np.pi * X[:, 0] + rs.uniform(0, 6))          # in (0.5, 2.5)
+    fam = c['fam']
+    if fam == 'normal':
+        y = g + f['sd'] * rs.randn(n)
+    elif fam == 'binomial':
+        y = rs.binomial(c['levels'], 0.15 + 0.28 * g, size=n).astype(float)
+    elif fam == 'poisson':
+        y = rs.poisson(2 * g).astype(float)
+    elif fam == 'gamma':
+        y = rs.gamma(shape=1 / f['disp'], scale=g * f['disp'])
+    else:
+        y = rs.wald(mean=g, scale=1 / f['disp'])
+    # GAM.fit stores the weights as float32 (`np.array(weights).astype('f')`): use weights that survive that unchanged
+    w = rs.uniform(0.5, 2.0, size=n).astype(np.float32).astype(float) if f['weighted'] else None
+    return X, y, w
+
+
+def fit_history_once(D, c):
+    """returns (None, blocks, scales) or (fit index, observed, expected)"""
+    import pygam
+    fam, how, levels = c['fam'], c['how'], c['levels']
+    supplied = how == 'supplied' or fam not in FREE_SCALE
+    term = pygam.s(0, n_splines=c['n_splines'])
+    try:
+        if how == 'class':
+            gam = getattr(pygam, FIT_CLASS[fam])(term)
+        else:
+            if how == 'name':
+                dist = fam
+            elif fam == 'binomial':
+                dist = D.DISTRIBUTIONS[fam](levels=levels)
+            elif fam == 'poisson':
+                dist = D.DISTRIBUTIONS[fam]()
+            else:
+                dist = D.DISTRIBUTIONS[fam](scale=c['scale'])
+            gam = pygam.GAM(term, distribution=dist, link=FIT_LINK[fam])
+    except Exception as e:
+        return 0, 'constructor: %s: %s' % (type(e).__name__, e), 'a model'
+    blocks, scales = [], []
+    for j, f in enumerate(c['fits']):
+        X, y, w = fit_data(c, f)
+        n = len(y)
+        try:
+            with np.errstate(all='ignore'):
+                if w is None:
+                    gam.fit(X.copy(), y.copy())
+                else:
+                    gam.fit(X.copy(), y.copy(), weights=w.copy())
+                got = float(gam.statistics_['scale'])
+                edof = float(gam.statistics_['edof'])
+                mu = np.asarray(gam.predict_mu(X.copy()), dtype=float)
+            if mu.shape != (n,):
+                raise ValueError('predict_mu returned shape %r for %d rows' % (mu.shape, n))
+        except Exception as e:
+            return j, '%s: %s' % (type(e).__name__, e), 'a fitted model with statistics_["scale"]'
+        ww = np.ones(n) if w is None else w
+        b = dict(n=n, edof=edof, w=ww.tolist(), y=y.tolist(), mu=mu.tolist())
+        want = eff_scale(fam, c['scale']) if supplied else pearson_ref(fam, levels, b)
+        if not (np.isfinite(want) and abs(got - want) <= 1e-8 * abs(want)):
+            return j, dict(statistics_scale=got, edof=edof, n=n), want
+        blocks.append(b)
+        scales.append(got)
+    return None, blocks, scales
+
+
+def run_fit_history(ctx, D, cases=None):
+    st = 'gam.scale.history'
+    ctx.stream(st, "one model object (GAM(distribution=name | instance | instance with a supplied scale), LinearGAM, GammaGAM, ...) fitted 2-3 "
+                   "times on different data: statistics_['scale'] of every fit = Pearson / (n - edof) of that fit (NumPy on predict_mu, "
+                   "statistics_['edof']) or the supplied scale, 1e-8; and = model estimateHistory on the same (y, mu, edof, w), 1e-9")
+    if cases is None:
+        cases = gen_fit_history_cases(ctx)
+    fails = 0
+    pending = []
+    for c in cases:
+        fam, how = c['fam'], c['how']
+        supplied = how == 'supplied' or fam not in FREE_SCALE
+        sig = dict(fam=fam, how=how, levels=c['levels'], scale=repr(c['scale']), n_splines=c['n_splines'],
+                   fits=[(f['n'], f['seed'], f['weighted']) for f in c['fits']])
+        ctx.case(st, sig, nontrivial=not supplied, sample=dict(fam=fam, how=how, fits=len(c['fits'])))
+        ctx.count('fit history', '%s %s' % (fam, how))
+        r = fit_history_once(D, c)
+        if r[0] is not None:
+            r2 = fit_history_once(D, c)
+            if r2[0] is not None and fails < MAX_FAILS:
+                fails += 1
+                ctx.fail(st, dict(fam=fam, check='scale of a refitted model', how=how, supplied=supplied, later_fit=r[0] > 0), c,
+                         observed=dict(fit_number=r[0] + 1, observed=r[1]), expected=r[2],
+                         oracle="supplied scale, else sum(w (y - mu)^2 / V(mu)) / (n - edof) with mu = predict_mu(X), edof = statistics_['edof'], textbook V (NumPy)")
+            continue
+        pending.append((c, r[1], r[2]))
+    if pending:
+        outs = ctx.driver.run([phih_line(c['fam'], c['levels'], c['scale'], blocks) for c, blocks, _ in pending])
+        for (c, blocks, scales), o in zip(pending, outs):
+            model = parse_phih(o, len(blocks))
+            ms = [t[1] for t in model]
+            if not all(m is not None and abs(g - m) <= 1e-9 * abs(m) for g, m in zip(scales, ms)):
+                ctx.disagree(st, c, impl=scales, model=ms, detail="statistics_['scale'] along the fits differs from the model although the Pearson oracle holds for every fit")
+
+
+# ------------------------------------------------------------------------------------------------
 def _setup(ctx):
     common.import_pygam()
     import pygam.distributions as D
@@ -831,6 +1329,9 @@ def run(ctx):
     run_phi(ctx, D)
     run_sampler_args(ctx, D)
     run_draws(ctx, D)
+    run_purity(ctx, D)
+    run_phi_history(ctx, D)
+    run_fit_history(ctx, D)
 
 
 def replay(ctx, rp):
@@ -848,5 +1349,11 @@ def replay(ctx, rp):
         run_sampler_args(ctx, D, [c])
     elif kind == 'draws':
         run_draws(ctx, D, [c])
+    elif kind == 'purity':
+        run_purity(ctx, D, [c])
+    elif kind == 'phi_history':
+        run_phi_history(ctx, D, [c])
+    elif kind == 'fit_history':
+        run_fit_history(ctx, D, [c])
     else:
         run(ctx)
